@@ -19,6 +19,18 @@ TIERS = {
 }
 
 
+def quick_runs(check: str) -> int:
+    """Quick tier size: never smaller than the enumerated part of the check's plan."""
+    n = TIERS[check]["quick"]
+    if check == "C03":
+        from .props import c03
+        n = max(n, 2 * len(c03.sweep_plan("quick")))
+    elif check == "C10":
+        from .props import c10
+        n = max(n, len(c10.plan("quick")) + 48)
+    return n
+
+
 def run_seed(verif_seed: int, i: int) -> int:
     return verif_seed * (1 << 24) + i
 
@@ -45,8 +57,10 @@ def case_spec(check: str, tier: str, verif_seed: int, i: int):
         spec = c03.gen(i, R, tier)
     elif check == "C07":
         from .props import c06, c09, c11, c07
-        k = i % 4
-        if k == 0:
+        k = i % 5
+        if k == 4:
+            spec = c06.gen(i, R, tier, force_mode="library")
+        elif k == 0:
             spec = c09.gen(i, R, tier)
         elif k == 1:
             spec = c11.gen(i, R, tier, noninterference=False)
